@@ -861,6 +861,42 @@ fn eval_case_inner(line: &str) -> String {
                 }
             }
         }
+        "PXZ" => {
+            // PXZ w h x y i1,i2,..: a page built by from_bytes over several GiB of zero bytes (mapped lazily, so only the
+            // bytes touched cost memory): what a borrowed view reads at (x, y); then, owning the buffer, the pixel
+            // switched on, what it and its neighbours read, and the bytes at the given indices
+            let (w, h, x, y): (u32, u32, u32, u32) = (num(t[1]), num(t[2]), num(t[3]), num(t[4]));
+            let total = ((4u64 + w as u64 * ((h as u64 + 7) / 8) + 15) / 16 * 16) as usize;
+            let layout = match std::alloc::Layout::from_size_align(total, 1) {
+                Ok(l) => l,
+                Err(_) => return "UNAVAILABLE".to_string(),
+            };
+            let ptr = unsafe { std::alloc::alloc_zeroed(layout) };
+            if ptr.is_null() {
+                return "UNAVAILABLE".to_string();
+            }
+            let buf: Vec<u8> = unsafe { Vec::from_raw_parts(ptr, total, total) };
+            let view = match guarded(|| Page::from_bytes(w, h, &buf[..]).map(|p| p.get_pixel(x, y))) {
+                None => "P".to_string(),
+                Some(Ok(v)) => (v as u8).to_string(),
+                Some(Err(_)) => "ER".to_string(),
+            };
+            match guarded(move || {
+                let mut p = Page::from_bytes(w, h, buf).expect("length");
+                p.set_pixel(x, y, true);
+                p
+            }) {
+                None => "PANIC".to_string(),
+                Some(p) => {
+                    let b = p.as_bytes();
+                    let g = |x: u32, y: u32| guarded(|| p.get_pixel(x, y)).map(|v| (v as u8).to_string()).unwrap_or_else(|| "P".to_string());
+                    let right = if x + 1 < w { g(x + 1, 0) } else { "-".to_string() };
+                    let above = if y > 0 { g(x, y - 1) } else { "-".to_string() };
+                    let bytes: Vec<String> = t[5].split(',').map(|i| match b.get(num::<usize>(i)) { Some(v) => format!("{}:{}", i, v), None => format!("{}:-", i) }).collect();
+                    format!("len={} view={} get={} nbr={}/{} bytes={}", b.len(), view, g(x, y), right, above, bytes.join(","))
+                }
+            }
+        }
         "PBX" => {
             // PBX w h len fill: from_bytes over [7, 0x10, 0, 0] followed by len-4 bytes of one value (borrowed and owned)
             let len: usize = num(t[3]);
